@@ -281,6 +281,9 @@ def _worker_init(home, env_extra):
     decimal.setcontext(decimal.DefaultContext.copy())
 
 
+INSPECTION_FAILURES = []
+
+
 def _worker_call(args):
     fn, case, limit = args
     signal.setitimer(signal.ITIMER_REAL, limit)
@@ -288,6 +291,16 @@ def _worker_call(args):
         return fn(case)
     except CaseTimeout:
         return {"hung": True}
+    except Exception as x:
+        # the harness's own inspection of a delivered value failed (on the unchanged tree it never does: a run would
+        # have ended here): the value, or the process state the evaluation left behind, is not what Ka delivers —
+        # reported as an observation like an exception that escaped, with the case as the replay
+        import traceback
+        tb = traceback.extract_tb(x.__traceback__)
+        where = "%s:%d" % (os.path.basename(tb[-1].filename), tb[-1].lineno) if tb else "?"
+        text = case if isinstance(case, str) else (case.get("text") if isinstance(case, dict) else None)
+        return {"escaped": "%s while the result was inspected (%s)" % (type(x).__name__, where), "status": None, "text": text, "out": "", "err": str(x)[:200],
+                "value": None, "inspection_failed": True, "msg": str(x)[:200]}
     finally:
         signal.setitimer(signal.ITIMER_REAL, 0)
 
@@ -302,7 +315,9 @@ def run_impl(fn, cases, rundir, limit=5.0, env_extra=None, chunksize=None, procs
     if chunksize is None:
         chunksize = max(1, min(200, len(cases) // (procs * 4) or 1))
     with ctx.Pool(procs, initializer=_worker_init, initargs=(home, env_extra)) as pool:
-        return pool.map(_worker_call, [(fn, c, limit) for c in cases], chunksize=chunksize)
+        res = pool.map(_worker_call, [(fn, c, limit) for c in cases], chunksize=chunksize)
+    INSPECTION_FAILURES.extend(r for r in res if isinstance(r, dict) and r.get("inspection_failed"))
+    return res
 
 
 # ----- generic observation of the implementation (used by most properties)
@@ -562,7 +577,21 @@ def expect_sessions(rep, rundir, prop, items, kind="session-expectation"):
     return n
 
 
+ERROR_PRELUDES = ["1/0", "nosuchfn(1)", "1 m + 1 s", "(", "\"abc", "[2, 3]^1000.5", "10^400 * 1.5", "sqrt(-1)", "log(0)", "(-8)^(1/3)", "sin(1, zz: 2)",
+                  "5 m to s", "{1 : y in {1,2}, {}}", "max()", "171! * 1.5", "#2024-02-30#", "zz_unassigned + 1", "range(1, 5, 0)", "P(Binomial(3, 2) = 1)",
+                  "1 kdegC", "[1, 2] / [-1, 1]", "{1, 2 m} to s", "sum({1, 1 m})", "(10^400 + 0.5) m", "1 +", "0b102", "#2024"]
+
+
 def _seam_obs(text):
+    if isinstance(text, (tuple, list)):          # (input that fails, expression): one process, the failure first
+        from ka.eval import EvalEnvironment
+        env = EvalEnvironment()
+        observe(text[0], env)
+        o1 = observe(text[1], env)
+        o2 = observe(text[1])
+        o = o1 if (o1.get("status"), o1.get("value")) != (o2.get("status"), o2.get("value")) or o1.get("escaped") else o2
+        return dict(text=" ;; ".join(text), status=o.get("status"), value=o.get("value"), out=(o.get("out") or "")[:200], escaped=o.get("escaped"),
+                    err=(o.get("err") or "")[:160], hung=o.get("hung"))
     o = observe(text)
     return dict(text=text, status=o.get("status"), value=o.get("value"), out=(o.get("out") or "")[:200], escaped=o.get("escaped"),
                 err=(o.get("err") or "")[:160], hung=o.get("hung"))
@@ -604,6 +633,14 @@ def seam_check(rep, rundir, prop, texts=(), templates=(), wrappers=None, limit=1
     for a, b in pairs:          # two spellings of one value (e.g. an aggregate and the folded operator)
         jobs.append(("plain", b, None, b))
         jobs.append(("pair", b, None, a))
+    # an input that failed leaves nothing behind: the expression evaluated next in the same process (same session, and
+    # a new one) gives what it gives in a fresh process
+    afters = [t for t in list(texts)[:40]] + [pat % ("(%s)" % ops[0]) for pat, ops in list(templates)[:20] if ops]
+    for i, t in enumerate(afters):
+        for k in ([i % len(ERROR_PRELUDES)] if i >= 2 else range(len(ERROR_PRELUDES))):
+            jobs.append(("after", t, None, (ERROR_PRELUDES[k], t)))
+        if ("plain", t, None, t) not in jobs:
+            jobs.append(("plain", t, None, t))
     obs = run_impl(_seam_obs, [j[3] for j in jobs], rundir, limit=limit)
     # an evaluation that did not return in time is given a second, much longer chance on its own before it counts
     # (the workers share the machine with whatever else is running)
@@ -621,6 +658,18 @@ def seam_check(rep, rundir, prop, texts=(), templates=(), wrappers=None, limit=1
         if j[0] == "plain":
             continue
         n += 1
+        if j[0] == "after":
+            p = plain[j[1]]
+            if p.get("hung") or p.get("escaped") or o.get("hung"):
+                continue
+            same = (o.get("status") == p.get("status") and o.get("value") == p.get("value") and (o.get("status") != 1 or (o.get("err") or "")[:60] == (p.get("err") or "")[:60]))
+            if not same:
+                got = o.get("value") if o.get("status") == 0 else "E:status%r/%s %s" % (o.get("status"), o.get("escaped"), (o.get("err") or "").strip()[:80])
+                want = p.get("value") if p.get("status") == 0 else "E:status%r %s" % (p.get("status"), (p.get("err") or "").strip()[:80])
+                rep.violation(dict(kind="seam", via="after-error"),
+                              "%s fails after a failed input: once `%s` has been refused, `%s` gives %s; in a fresh process it gives %s" % (prop, j[3][0][:80], j[1][:160], str(got)[:160], str(want)[:160]),
+                              dict(text="%s ;; %s" % j[3], inputs=list(j[3]), impl=str(got)[:400], expected=str(want)[:400]))
+            continue
         if j[0] == "pair":
             p = plain[j[1]]
             if p.get("hung") or p.get("escaped"):
@@ -675,6 +724,8 @@ CONFIG_MATRIX = [            # (tag, config file lines, extra environment)
     ("precision=17", ["precision = 17"], {}),
     ("empty config file", [""], {}),
     ("PYTHONINTMAXSTRDIGITS=1000", None, {"PYTHONINTMAXSTRDIGITS": "1000"}),
+    ("TZ=Europe/London", None, {"TZ": "GMT0BST,M3.5.0/1,M10.5.0"}),          # a zone with daylight saving (rule spelled out: no tzdata needed)
+    ("TZ=America/New_York", None, {"TZ": "EST5EDT,M3.2.0,M11.1.0"}),
 ]
 _MATRIX_DRIVER = r'''
 import sys, json
@@ -684,7 +735,7 @@ out = []
 for t in json.loads(sys.argv[2]):
     try:
         o = C.observe(t)
-        out.append(dict(text=t, status=o.get("status"), value=o.get("value"), escaped=o.get("escaped"), err=(o.get("err") or "")[:120],
+        out.append(dict(text=t, status=o.get("status"), value=o.get("value"), escaped=o.get("escaped"), err=(o.get("err") or "")[:120], out=(o.get("out") or "")[:6000],
                         out_empty=(o.get("out") or "") == "", err_empty=(o.get("err") or "").strip() == ""))
     except BaseException as x:
         out.append(dict(text=t, status=None, value=None, escaped="harness:" + type(x).__name__, err=str(x)[:120], out_empty=True, err_empty=True))
@@ -727,6 +778,79 @@ def enc_close(a, b, rel=1e-9):
     return True
 
 
+_NOT_REPRODUCIBLE = re.compile(r"rand|sample\(|now\(|today\(|plot|line\(|scatter|histogram|vline|hline|text\(|options\(|quit")
+
+
+def entry_points(rep, root, prop, base):
+    """What execute() writes for an input is what every way of handing that input to Ka writes: `python -m ka.cli
+    "<input>"` (with the status as exit code), `python -m ka.cli --script FILE` (the statements on separate lines),
+    and the interactive loop fed through standard input.  `base` = observations of execute() in a fresh process."""
+    import subprocess
+    home = os.path.join(root, "entry_points")
+    os.makedirs(home, exist_ok=True)
+    env = {k: v for k, v in os.environ.items() if not k.startswith(("XDG_", "PYTHON"))}
+    env.update(HOME=home, PYTHONPATH=SRC, PYTHONHASHSEED="0", PYTHONDONTWRITEBYTECODE="1", MPLBACKEND="Agg")
+    jobs = []
+    for i, b in enumerate(base):
+        t = b["text"]
+        if b.get("status") not in (0, 1) or b.get("escaped") or _NOT_REPRODUCIBLE.search(t) or "\x00" in t or len(b.get("out") or "") >= 6000 or not t.strip():
+            continue
+        if len(t) < 20000:
+            jobs.append((i, "command line", t))
+        jobs.append((i, "script file", t))
+        if "\n" not in t and "\r" not in t and not t.lstrip().startswith("%"):
+            jobs.append((i, "interactive loop", t))
+
+    def run(job):
+        i, how, t = job
+        try:
+            if how == "command line":
+                p = subprocess.run(["/venv/bin/python", "-m", "ka.cli", t], env=env, cwd=home, stdin=subprocess.DEVNULL, stdout=subprocess.PIPE, stderr=subprocess.PIPE, timeout=120)
+            elif how == "script file":
+                path = os.path.join(home, "script_%d.ka" % i)
+                with open(path, "w") as f:
+                    f.write(re.sub(r";[ ]*", ";\n", t) + "\n")
+                p = subprocess.run(["/venv/bin/python", "-m", "ka.cli", "--script", path], env=env, cwd=home, stdin=subprocess.DEVNULL, stdout=subprocess.PIPE, stderr=subprocess.PIPE, timeout=120)
+            else:
+                p = subprocess.run(["/venv/bin/python", "-m", "ka.cli"], env=env, cwd=home, input=(t + "\nquit()\n").encode(), stdout=subprocess.PIPE, stderr=subprocess.PIPE, timeout=120)
+            return p.returncode, p.stdout.decode("utf-8", "replace"), p.stderr.decode("utf-8", "replace")
+        except (subprocess.TimeoutExpired, ValueError, OSError) as x:
+            return None, "", type(x).__name__
+    with ThreadPoolExecutor(8) as ex:
+        results = list(ex.map(run, jobs))
+    n = 0
+    for (i, how, t), (rc, out, err) in zip(jobs, results):
+        b = base[i]
+        if rc is None:
+            if err == "TimeoutExpired":
+                rep.violation(dict(kind="entry-point", how=how), "%s: `%s` given to the %s does not return" % (prop, t[:160], how), dict(text=t, how=how))
+            continue
+        n += 1
+        want = b.get("out") or ""
+        if how == "script file" and ";" in t and re.search(r'"[^"]*;|#[^#]*;', t):
+            continue            # a `;` inside a string or an instant: the script spelling above would split the literal
+        if how == "interactive loop":
+            lines = out.split("\n", 1)
+            out = lines[1] if len(lines) > 1 and lines[0].startswith("ka version") else out
+            out = out[4:] if out.startswith(">>> ") else out
+            out = out[:-4] if out.endswith(">>> ") else out
+        bad = None
+        if "Traceback (most recent call last)" in err:
+            bad = "ends in a traceback: %s" % err.strip().splitlines()[-1][:120]
+        elif out != want:
+            bad = "writes %r on the output stream, execute() writes %r" % (out[:80], want[:80])
+        elif how == "command line" and rc != b["status"]:
+            bad = "exits with %r, execute() returns %r" % (rc, b["status"])
+        elif b["status"] == 0 and err.strip() != "":
+            bad = "writes %r on the error stream of a successful evaluation" % err.strip()[:80]
+        elif b["status"] == 1 and err.strip() == "":
+            bad = "writes no diagnostic"
+        if bad:
+            rep.violation(dict(kind="entry-point", how=how), "%s fails through another entry point: `%s` given to the %s %s" % (prop, t[:200], how, bad),
+                          dict(text=t, how=how, exit=rc, stdout=out[:400], stderr=err[:400], execute_status=b["status"], execute_out=want[:400]))
+    return n
+
+
 def config_matrix(rep, rundir, prop, texts, configs=None, rel=1e-9, what="the value does not depend on this setting"):
     """Evaluate `texts` in fresh interpreters under other configuration files / environments and compare with the
     default start-up (empty HOME): same status, same value (floats within rel), well-formed streams, nothing escapes.
@@ -759,6 +883,7 @@ def config_matrix(rep, rundir, prop, texts, configs=None, rel=1e-9, what="the va
         rep.violation(dict(kind="harness-matrix"), "the default start-up could not be observed: %s" % err, dict(error=err), found_input=False)
         return 0
     n = 0
+    n += entry_points(rep, root, prop, base)
     with ThreadPoolExecutor(4) as ex:
         results = list(ex.map(lambda c: run(*c), configs))
     for (tag, lines, extra), (res, err) in zip(configs, results):
